@@ -243,7 +243,7 @@ func c03LoopsCase(tier string, idx int) *c03Case {
 // ---------------------------------------------------------------- family: branches
 
 const (
-	nBranchKinds = 8
+	nBranchKinds = 9
 	nBranchCtx   = 6
 	nBranchForms = 4
 )
@@ -312,6 +312,8 @@ func c03BranchesCase(tier string, idx int) *c03Case {
 			return nil
 		}
 		x = &hs.BlockExpr{B: br(0, true, true)}
+	case 8: // match whose default arm is not the last one (the arms behind it are checked like any other)
+		x = &hs.Match{X: hs.V("n"), Arms: []hs.MatchArm{{Lits: []hs.Expr{hs.I(1)}, Body: arm(0, true, false)}, {Body: arm(1, false, false)}, {Lits: []hs.Expr{hs.I(2), hs.I(3)}, Body: arm(2, false, true)}}}
 	case 6: // if without else
 		if form == 2 {
 			return nil
